@@ -650,4 +650,154 @@ def runCheck (allRules : List RuleRow) (lint validated : Bool) (c : CheckConfig)
   | .error e => .error e
   | .ok rc => report (mkConfig lint rc allowCommentIgnores ignoreUnstable excludeImports) img
 
+/-! ## buf.yaml `lint:` / `breaking:` sections → effective configuration
+    (bufconfig/buf_yaml_file.go: `readBufYAMLFile`, `getLintConfigForExternalLintV1Beta1V1`,
+    `getLintConfigForExternalLintV2`, `getBreakingConfigForExternalBreaking`,
+    `isLintOrBreakingDisabledBasedOnIgnores`, `getRelPathsForLintOrBreakingExternalPaths`) -/
+
+/-- One `lint:` or `breaking:` mapping as decoded into the external YAML struct: an absent
+    key, an explicit zero value (`use: []`, `service_suffix: ""`, `disallow_comment_ignores:
+    false`) and an absent / empty section all decode to the same zero value.  `commentFlag` is
+    `allow_comment_ignores` in v1beta1 / v1 and `disallow_comment_ignores` in v2; the lint-only
+    keys are never set in a breaking section and vice versa (strict decoding rejects them). -/
+structure YSection where
+  use : List Id := []
+  except : List Id := []
+  ignore : List Str := []
+  /-- a Go map (unique keys); a key with an empty list still counts for `len(m)` -/
+  ignoreOnly : List (Id × List Str) := []
+  enumZeroValueSuffix : Str := []
+  rpcAllowSameRequestResponse : Bool := false
+  rpcAllowGoogleProtobufEmptyRequests : Bool := false
+  rpcAllowGoogleProtobufEmptyResponses : Bool := false
+  serviceSuffix : Str := []
+  commentFlag : Bool := false
+  ignoreUnstablePackages : Bool := false
+  disableBuiltin : Bool := false
+  deriving DecidableEq, Repr
+
+/-- `externalBufYAMLFileLintV2.isEmpty` / `externalBufYAMLFileBreakingV1Beta1V1V2.isEmpty`:
+    EVERY key of the schema counts. -/
+def YSection.isEmpty (s : YSection) : Bool :=
+  s.use.isEmpty && s.except.isEmpty && s.ignore.isEmpty && s.ignoreOnly.isEmpty &&
+  s.enumZeroValueSuffix.isEmpty && !s.rpcAllowSameRequestResponse &&
+  !s.rpcAllowGoogleProtobufEmptyRequests && !s.rpcAllowGoogleProtobufEmptyResponses &&
+  s.serviceSuffix.isEmpty && !s.commentFlag && !s.ignoreUnstablePackages && !s.disableBuiltin
+
+/-- What `bufcheck` reads of a `bufconfig.LintConfig` / `BreakingConfig`. -/
+structure EffConfig where
+  disabled : Bool
+  check : CheckConfig
+  allowCommentIgnores : Bool
+  ignoreUnstablePackages : Bool
+  enumZeroValueSuffix : Str
+  rpcAllowSameRequestResponse : Bool
+  rpcAllowGoogleProtobufEmptyRequests : Bool
+  rpcAllowGoogleProtobufEmptyResponses : Bool
+  serviceSuffix : Str
+  deriving DecidableEq, Repr
+
+/-- `isLintOrBreakingDisabledBasedOnIgnores`: in list order, an invalid path is an error, a path
+    equal to the module directory disables the check. -/
+def disabledByIgnores (moduleDir : Str) : List Str → Except RErr Bool
+  | [] => .ok false
+  | p :: rest =>
+    match normalizeAndValidate p with
+    | .error _ => .error .config
+    | .ok n => if n = moduleDir then .ok true else disabledByIgnores moduleDir rest
+
+/-- `getRelPathsForLintOrBreakingExternalPaths`. -/
+def relPathsFor (moduleDir : Str) (requireContained : Bool) : List Str → Except RErr (List Str)
+  | [] => .ok []
+  | p :: rest =>
+    match normalizeAndValidate p with
+    | .error _ => .error .config
+    | .ok n =>
+      if !equalsOrContainsPath moduleDir n then
+        (if requireContained then .error .config else relPathsFor moduleDir requireContained rest)
+      else match rel moduleDir n, relPathsFor moduleDir requireContained rest with
+        | some r, .ok rs => .ok (r :: rs)
+        | _, _ => .error .config
+
+/-- The `ignore_only` loop: keys whose path list becomes empty are dropped. -/
+def relIgnoreOnlyFor (moduleDir : Str) (requireContained : Bool) :
+    List (Id × List Str) → Except RErr (List (Id × List Str))
+  | [] => .ok []
+  | (k, ps) :: rest =>
+    match relPathsFor moduleDir requireContained ps, relIgnoreOnlyFor moduleDir requireContained rest with
+    | .ok ps', .ok rest' => .ok (if ps'.isEmpty then rest' else (k, ps') :: rest')
+    | _, _ => .error .config
+
+def disabledCheckConfig : CheckConfig :=
+  { use := [], except := [], ignore := [], ignoreOnly := [], disableBuiltin := false }
+
+/-- `getLintConfigForExternalLint*` (lint = true) / `getBreakingConfigForExternalBreaking`. -/
+def sectionToEff (lint v2 : Bool) (moduleDir : Str) (requireContained : Bool) (s : YSection) :
+    Except RErr EffConfig :=
+  let mk (disabled : Bool) (c : CheckConfig) : EffConfig :=
+    { disabled := disabled, check := c,
+      allowCommentIgnores := lint && (if v2 then !s.commentFlag else s.commentFlag),
+      ignoreUnstablePackages := !lint && s.ignoreUnstablePackages,
+      enumZeroValueSuffix := if lint then s.enumZeroValueSuffix else [],
+      rpcAllowSameRequestResponse := lint && s.rpcAllowSameRequestResponse,
+      rpcAllowGoogleProtobufEmptyRequests := lint && s.rpcAllowGoogleProtobufEmptyRequests,
+      rpcAllowGoogleProtobufEmptyResponses := lint && s.rpcAllowGoogleProtobufEmptyResponses,
+      serviceSuffix := if lint then s.serviceSuffix else [] }
+  match disabledByIgnores moduleDir s.ignore with
+  | .error e => .error e
+  | .ok true => .ok (mk true disabledCheckConfig)
+  | .ok false =>
+    match relPathsFor moduleDir requireContained s.ignore,
+          relIgnoreOnlyFor moduleDir requireContained s.ignoreOnly with
+    | .ok ig, .ok io =>
+      (match newEnabledCheckConfig { use := s.use, except := s.except, ignore := ig, ignoreOnly := io,
+                                     disableBuiltin := s.disableBuiltin } with
+       | .error e => .error e
+       | .ok c => .ok (mk false c))
+    | _, _ => .error .config
+
+/-- Which section a module uses (v2): its own when that is not empty — then it REPLACES the
+    workspace-level section as a whole and its paths must lie inside the module —, otherwise the
+    workspace-level one (paths outside the module are skipped). -/
+def pickSection (ws mod : YSection) : YSection × Bool :=
+  if mod.isEmpty then (ws, false) else (mod, true)
+
+/-- The `LintConfig` / `BreakingConfig` of one module of a buf.yaml.  v1beta1 / v1: the only
+    section, module directory ".".  v2: `pickSection`. -/
+def moduleEff (lint v2 : Bool) (moduleDir : Str) (ws mod : YSection) : Except RErr EffConfig :=
+  if v2 then
+    let (s, req) := pickSection ws mod
+    sectionToEff lint true moduleDir req s
+  else sectionToEff lint false dot true ws
+
+/-- `BufYAMLFile.TopLevelLintConfig` / `TopLevelBreakingConfig` (v2: `none` when the
+    workspace-level section is empty). -/
+def topLevelEff (lint v2 : Bool) (ws : YSection) : Except RErr (Option EffConfig) :=
+  if v2 then
+    if ws.isEmpty then .ok none
+    else match sectionToEff lint true dot false ws with
+      | .error e => .error e
+      | .ok c => .ok (some c)
+  else match sectionToEff lint false dot true ws with
+    | .error e => .error e
+    | .ok c => .ok (some c)
+
+/-- Reading the file converts the module sections AND the top-level section; any error fails
+    the read. -/
+def readYaml (lint v2 : Bool) (moduleDir : Str) (ws mod : YSection) :
+    Except RErr (EffConfig × Option EffConfig) :=
+  match moduleEff lint v2 moduleDir ws mod, topLevelEff lint v2 ws with
+  | .ok m, .ok t => .ok (m, t)
+  | .error e, _ => .error e
+  | _, .error e => .error e
+
+/-- `Client.Lint` / `Client.Breaking` on a configuration that came out of a buf.yaml. -/
+def runEff (allRules : List RuleRow) (lint : Bool) (eff : EffConfig) (excludeImports : Bool) (img : Image) :
+    Except RErr (List FileAnnot) :=
+  if eff.disabled then .ok []
+  else match newRulesConfig (if eff.check.disableBuiltin then [] else allRules) lint eff.check with
+    | .error e => .error e
+    | .ok rc =>
+      report (mkConfig lint rc eff.allowCommentIgnores eff.ignoreUnstablePackages excludeImports) img
+
 end BufModel.Rules
